@@ -285,7 +285,44 @@ def rule_sstr_index(c, prog, R="C01.sstr"):
         raise core.AnchorMissing("no mutation of the SharedString list found in the binary serializer")
 
 
+def rule_uid(c, prog, R="C01.uid"):
+    """default-filled UniqueId columns meet the DOM's uniqueness bookkeeping on read"""
+    c.rule(R, "binary writer x DOM insert: a property gained through default filling comes back with the default value. For UniqueId the column default is one constant for every instance that lacks the property, while WeakDom replaces the second occurrence of any id by a freshly generated one; unless the constant is exempt from that replacement (or never reaches insert), the second default-filled instance comes back with a time-based id that differs on every load")
+    dom_fns = [f for f in prog.lib_fns() if f.body is not None and f.crate == "rbx_dom_weak"]
+    regen = [f for f in dom_fns if any(x.get("k") in ("Call", "MethodCall") and (core.callee(x) or "").endswith("unique_id::UniqueId::now") for x in core.walk_fn(f))]
+    if not regen:
+        raise core.AnchorMissing("no function of rbx_dom_weak regenerates a UniqueId (UniqueId::now)")
+
+    def mentions_nil(node):
+        return any(x.get("k") in ("Call", "MethodCall", "Path") and re.search(r"unique_id::UniqueId::(nil|is_nil)$", (core.callee(x) if x.get("k") != "Path" else x.get("def")) or "") for x in core.walk(node))
+    # (1) a constant default exists for UniqueId-typed columns
+    fb = [f for f in prog.lib_fns() if f.body is not None and f.crate == "rbx_binary" and "::serializer::" in f.path and f.path.endswith("fallback_default_value")]
+    const_default = False
+    for f in fb:
+        for n in core.walk_fn(f):
+            if n.get("k") == "Match":
+                for arm in n["arms"]:
+                    if "VariantType::UniqueId" in core.pat_str(arm["pat"]) and "None" not in core.fingerprint(arm["body"], 2):
+                        const_default = True
+    if not fb:
+        # defaults may come from elsewhere; without the fallback table this clause has nothing to anchor on
+        c.not_decided.append("UniqueId column default: fallback_default_value not found")
+        return
+    # (2) the regeneration is exempt for the nil id, or (3) the reader filters nil ids before inserting
+    exempt_dom = any(mentions_nil(f.body) for f in regen)
+    fn, darms = common.binary_decoder_arms(prog)
+    arm = darms.get("UniqueId", {}).get("UniqueId")
+    exempt_reader = arm is not None and mentions_nil(arm["body"])
+    c.sample({"rule": R, "constant_default_for_UniqueId": const_default, "regenerating_functions": [f.path for f in regen], "nil_exempt_in_dom": exempt_dom, "nil_filtered_by_reader": exempt_reader})
+    inst = "uniqueid:default-fill-vs-uniqueness"
+    if const_default and not exempt_dom and not exempt_reader:
+        c.violation(R, "default-fill-collides", f"the binary writer fills the UniqueId column of instances that lack the property with one constant (UniqueId::nil()), and {core.short(regen[0].path)} replaces every second occurrence of an id by UniqueId::now(): of two default-filled instances the second comes back with a time-based id, different on every load — neither the value written nor the default", regen[0].sp, instance=inst)
+    else:
+        c.ok(R, inst)
+
+
 def run(c, prog):
+    rule_uid(c, prog)
     rule_sstr_index(c, prog)
     rule_tbl(c, prog)
     rule_ref(c, prog)
